@@ -126,6 +126,14 @@ reg("C09", "offline checker over recorded index sets and decoded rows (unique sa
     "Trusts the id encoding (exact in float32) and the recording optimiser; freshness of shuffles judged only where a coincidence has p < 1e-6; "
     "order of the flattened axis is not asserted (the property demands a bijection).")
 
+reg("C13", "differential monitor: real wrapper stacks vs a float64 composition of the declared action/observation/reward maps and time limits over a probing environment whose every component depends on all of its inputs; TimeLimit driven through enumerated episode histories; adapters vs twin environments",
+    "Held on every stack/history explored: each documented wrapper alone and type-directed random stacks (depth <= 4) over a probing env, finite MDPs and "
+    "classic-control envs agree with the composed reference on all nine functional components, advertised spaces and unwrapped env/state; RescaleAction/"
+    "RescaleObservation map new bounds onto original bounds and interior points affinely; TimeLimit(N), N=1..8, truncates at exactly the N-th step over >= 3 "
+    "consecutive episodes of every inner length 1..10, alone, nested, vmapped; the four Gymnasium/Gymnax adapters reproduce their twin's trajectory.",
+    "Trusts the ProbeEnv harness environment and twin Gymnasium/Gymnax environments; rescale bounds within 8*eps32*(|bounds| scale) instead of 1 ulp (the "
+    "correct float32 affine formula cannot do better); classic-control stacks under jit only.")
+
 
 def main():
     props = [json.loads(l) for l in (ROOT / "properties.jsonl").read_text().splitlines() if l.strip()]
